@@ -381,7 +381,7 @@ def composites_schema():
     s.add(TypeDef("T32", "type", prim="uint32"))
     s.add(TypeDef("A3", "type", prim="char", length=3))
     s.add(TypeDef("E8", "enum", prim="uint8", values=[("One", "1"), ("Two", "2")]))
-    s.add(TypeDef("S16", "set", prim="uint16", values=[("c0", "0"), ("c9", "9")]))
+    s.add(TypeDef("S16", "set", prim="uint16", values=[("c9", "9"), ("c0", "0"), ("Mid", "4")]))
     s.add(TypeDef("Inner", "composite", members=[TypeDef("a", "type", prim="int8"), TypeDef("b", "type", prim="int64")]))
     s.add(TypeDef("Mixed", "composite", members=[
         TypeDef("mantissa", "type", prim="int64"),
@@ -484,5 +484,13 @@ def edge_schema():
     m.fields.append(Field("after", 2, "uint16"))
     g = Group("book", 10, "dim"); g.fields.append(Field("lvl", 1, "quote")); g.fields.append(Field("n", 2, "uint8")); m.groups.append(g)
     m.data.append(Data("memo", 20, "vd"))
+    s.messages.append(m)
+    # sets whose choices are declared in neither name nor bit order, as direct fields of a message and of an entry
+    s.add(TypeDef("OS8", "set", prim="uint8", values=[("zed", "7"), ("alpha", "0"), ("Mid", "3")]))
+    s.add(TypeDef("OS64", "set", prim="uint64", values=[("hi", "63"), ("lo", "0"), ("b32", "32"), ("a31", "31")]))
+    m = Message("E10", 10)
+    m.fields.append(Field("fl", 1, "OS8"))
+    m.fields.append(Field("wide", 2, "OS64"))
+    g = Group("opts", 10, "dim"); g.fields.append(Field("fl", 1, "OS64")); g.fields.append(Field("n", 2, "OS8")); m.groups.append(g)
     s.messages.append(m)
     return s
